@@ -9,8 +9,12 @@
    well formed ([wf]: each name points into the heap, no two names share a cell) - which every
    state reachable from [init_state] is (C13_reachable_wf). *)
 From Coq Require Import List NArith ZArith.
+From Coq Require Strings.String.
+Import Strings.String.StringSyntax.
+Delimit Scope string_scope with string.
 From Falco Require Import Base.Res Base.Bytes Model.StoreSyntax Model.Store Model.StoreOps
-  Proofs.StoreHeap Proofs.StoreInv Proofs.StoreMain Proofs.StoreFrame Proofs.StoreWitness.
+  Proofs.StoreHeap Proofs.StoreInv Proofs.StoreMain Proofs.StoreFrame Proofs.StoreWitness
+  Gen.StoreEffects Gen.StoreWritable Model.StoreBuiltinNames Proofs.StoreEffectsTie.
 Import ListNotations.
 
 (* Evaluating an expression built from variables, literals, operators and side-effect-free
@@ -51,6 +55,34 @@ Theorem C13_set_field_frame :
        read σ' (NHeader ob' h') = read σ (NHeader ob' h') /\
        forall k', read σ' (NField ob' h' k') = read σ (NField ob' h' k')).
 Proof. exact set_field_frame. Qed.
+
+(* `add <obj>.http.<h> = E;` changes at most that header (and its views) *)
+Theorem C13_add_frame :
+  forall Os P n fn o h e σ out σ',
+    wf σ -> pure e = true -> exec repaired Os P n fn (SAdd o h e) σ = OK (out, σ') ->
+    forall x, independent x (NHeader o h) -> is_group x = false -> read σ' x = read σ x.
+Proof. exact add_frame. Qed.
+
+(* `error [code [response]];` changes the documented implicit cells ctx.ObjectStatus / ctx.ObjectResponse
+   (gs, gr) and nothing else, and ends with the state error; `restart;` changes nothing. *)
+Theorem C13_error_frame :
+  forall Os P n fn ok gs gr code arg σ out σ',
+    wf σ -> (forall e, code = Some e -> pure e = true) -> (forall e, arg = Some e -> pure e = true) ->
+    exec repaired Os P n fn (SError ok gs gr code arg) σ = OK (out, σ') ->
+    out = OState st_error /\
+    forall x, x <> NGlobal gs -> x <> NGlobal gr -> is_group x = false -> read σ' x = read σ x.
+Proof. exact error_frame. Qed.
+
+Theorem C13_restart_frame :
+  forall Os P n fn ok σ out σ',
+    exec repaired Os P n fn (SRestart ok) σ = OK (out, σ') -> out = OState st_restart /\ σ' = σ.
+Proof. exact restart_frame. Qed.
+
+Theorem C13_error_example : error_example_stmt.
+Proof. exact error_example. Qed.
+
+Theorem C13_add_example : add_example_stmt.
+Proof. exact add_example. Qed.
 
 (* `unset T` / `remove T` on a header or a sub-field: the same frame *)
 Theorem C13_unset_frame :
@@ -150,10 +182,75 @@ Theorem C13_call_frame_needs_param_copy :
     exists k, read σ' (NLocal k) <> read σ (NLocal k).
 Proof. exact param_alias_refutes. Qed.
 
+(* ---- the model's assumptions about effects, against the table read off the Go source ----
+   Gen/StoreEffects.v is regenerated on every run from interpreter/function/builtin, statement.go and
+   operator/operator.go (which context fields each writes). *)
+
+(* The built-ins the model evaluates inside expressions (and [pure] admits) never mention the
+   interpreter context and never write through an argument. *)
+Theorem C13_model_builtins_effect_free :
+  forall f, In f std_builtin_names ->
+    effects_of f = Some [] /\ In f builtin_ctx_free /\ ~ In f builtin_arg_writers.
+Proof. exact model_builtins_effect_free. Qed.
+
+(* The built-ins WITH effects the differential run uses as statements / operands write only header
+   maps or ctx.FastlyError - cells the snapshots show. *)
+Theorem C13_stmt_builtins_observed :
+  forall f, In f stmt_builtins ->
+    exists w, effects_of f = Some w /\ forall p, In p w -> observed p = true.
+Proof. exact stmt_builtins_observed. Qed.
+
+(* The implicit writes of the model are the ones of the source: `error` writes ObjectStatus and
+   ObjectResponse; a match writes RegexMatchedValues (and FastlyError); set / add also charge the
+   request workspace counter; the other statement kinds write no context field themselves. *)
+Theorem C13_error_implicit :
+  lookup_eff "Error"%string statement_effects = Some error_implicit.
+Proof. exact error_implicit_tie. Qed.
+
+Theorem C13_match_implicit :
+  lookup_eff "Regex"%string operator_effects = Some match_implicit /\
+  lookup_eff "NotRegex"%string operator_effects = Some match_implicit /\
+  lookup_eff "Case"%string statement_effects = Some ["*"%string] /\
+  lookup_eff "FunctionCall"%string statement_effects = Some ["*"%string].
+Proof. exact match_implicit_tie. Qed.
+
+Theorem C13_set_implicit :
+  lookup_eff "Set"%string statement_effects = Some set_implicit /\
+  lookup_eff "Add"%string statement_effects = Some set_implicit.
+Proof. exact set_implicit_tie. Qed.
+
+Theorem C13_silent_statement_kinds :
+  forall k, In k silent_kinds -> lookup_eff k statement_effects = Some [].
+Proof. exact silent_kinds_tie. Qed.
+
+(* [wf] for the ctx variables, from the source: within what one scope can write (its own cases of
+   interpreter/variable/<scope>.go and the all-scope ones it falls back to) distinct names are
+   assigned into distinct context fields.  gen/storegen.py draws its ctx variables from this table. *)
+Theorem C13_writable_cells_distinct :
+  forall sc, In sc scopes ->
+    NoDup (map fst (scope_cells sc)) /\ NoDup (map snd (scope_cells sc)).
+Proof. exact writable_cells_distinct. Qed.
+
+Theorem C13_writable_example :
+  In ("req.hash_always_miss", "HashAlwaysMiss")%string (scope_cells "recv") /\
+  In ("req.max_stale_if_error", "MaxStaleIfError")%string (scope_cells "recv") /\
+  In ("obj.response", "ObjectResponse")%string (scope_cells "error").
+Proof. exact writable_example. Qed.
+
+(* witnesses: the analysis distinguishes writers *)
+Theorem C13_header_set_effects_example :
+  effects_of "header.set"%string = Some header_maps /\ ~ effect_free "header.set"%string.
+Proof. exact (conj header_set_effects header_set_not_effect_free). Qed.
+
 Print Assumptions C13_eval_frame.
 Print Assumptions C13_eval_frame_calls.
 Print Assumptions C13_set_frame.
 Print Assumptions C13_set_field_frame.
+Print Assumptions C13_add_frame.
+Print Assumptions C13_error_frame.
+Print Assumptions C13_restart_frame.
+Print Assumptions C13_error_example.
+Print Assumptions C13_add_example.
 Print Assumptions C13_unset_frame.
 Print Assumptions C13_switch_example.
 Print Assumptions C13_field_example.
@@ -169,3 +266,12 @@ Print Assumptions C13_neg_shapes_need_copy.
 Print Assumptions C13_call_example.
 Print Assumptions C13_eval_frame_needs_neg_copy.
 Print Assumptions C13_call_frame_needs_param_copy.
+Print Assumptions C13_model_builtins_effect_free.
+Print Assumptions C13_stmt_builtins_observed.
+Print Assumptions C13_error_implicit.
+Print Assumptions C13_match_implicit.
+Print Assumptions C13_set_implicit.
+Print Assumptions C13_silent_statement_kinds.
+Print Assumptions C13_header_set_effects_example.
+Print Assumptions C13_writable_cells_distinct.
+Print Assumptions C13_writable_example.
